@@ -258,6 +258,22 @@ func (ps *PanicScan) runForced(fn *ssa.Function, forced []*ssa.Function) *fnRun 
 // site) that must be inlined into it.
 func (ps *PanicScan) discharge(site panicSite, fn *ssa.Function, forced []*ssa.Function, depth int, chain string) (bool, string) {
 	r := ps.runForced(fn, forced)
+	// the site may depend on what a callee with a loop returns (a search helper whose result indexes the slice): such
+	// callees are summarised as opaque by default — try once more with the direct callees of this function inlined
+	if _, bad := r.flagged[site.pos]; (bad || r.failed != "") && depth == 0 {
+		var extra []*ssa.Function
+		for _, call := range calls(fn) {
+			if cal := call.Common().StaticCallee(); cal != nil && InModule(cal) && cal != fn && len(cal.Blocks) > 0 && len(naturalLoops(cal)) > 0 && len(cal.Blocks) <= 40 {
+				extra = append(extra, cal)
+			}
+		}
+		if len(extra) > 0 {
+			r2 := ps.runForced(fn, append(append([]*ssa.Function{}, forced...), extra...))
+			if _, bad2 := r2.flagged[site.pos]; r2.failed == "" && !bad2 {
+				return true, fmt.Sprintf("not reachable/implied in an abstract run of %s with its loop-carrying callees inlined (%d partitions)%s", FuncName(fn), r2.paths, chain)
+			}
+		}
+	}
 	if r.failed != "" {
 		if depth >= 3 || len(ps.callers[fn]) == 0 {
 			return false, "undecided: " + r.failed + " in " + FuncName(fn)
